@@ -317,6 +317,7 @@ class ProgBase(ContextMixin, Process):
             value = self.ctx.get(ret[1])
             chosen = ret[2].get(str(value), ret[3])
             return self._ret(idx, chosen)
+        world.cur().extra.setdefault('last_ret', {})[self.pid] = ret
         if kind == 'continue':
             args = ret[2] if len(ret) > 2 and ret[2] else []
             kwargs = ret[3] if len(ret) > 3 and ret[3] else {}
